@@ -110,13 +110,21 @@ func (c *MustacheTemplate) GetVariable(variables map[string]string, name string)
 		return nil
 	}
 
+	// An exact key wins; among keys that differ only in letter case the smallest one is taken,
+	// so that the answer does not depend on the iteration order of the map
+	if exactValue, ok := variables[name]; ok {
+		return &exactValue
+	}
+
 	name = strings.ToLower(name)
 	var result *string = nil
+	resultName := ""
 
 	for propName, propValue := range variables {
-		if strings.ToLower(propName) == name {
-			result = &propValue
-			break
+		if strings.ToLower(propName) == name && (result == nil || propName < resultName) {
+			value := propValue
+			result = &value
+			resultName = propName
 		}
 	}
 
